@@ -11,6 +11,7 @@ pub proof fn lemma_distrib_r(a: int, b: int, c: int) ensures (a + b) * c == a * 
 pub proof fn lemma_distrib_l_sub(a: int, b: int, c: int) ensures a * (b - c) == a * b - a * c { assert(a * (b - c) == a * b - a * c) by (nonlinear_arith); }
 pub proof fn lemma_distrib_r_sub(a: int, b: int, c: int) ensures (a - b) * c == a * c - b * c { assert((a - b) * c == a * c - b * c) by (nonlinear_arith); }
 pub proof fn lemma_mul_one(x: int) ensures x * 1 == x, 1 * x == x, x * 0 == 0, 0 * x == 0 { assert(x * 1 == x && 1 * x == x && x * 0 == 0 && 0 * x == 0) by (nonlinear_arith); }
+pub proof fn lemma_mul_neg(a: int, b: int) ensures a * (-b) == -(a * b), (-a) * b == -(a * b) { assert(a * (-b) == -(a * b) && (-a) * b == -(a * b)) by (nonlinear_arith); }
 pub proof fn lemma_mul_nonneg(a: int, b: int) requires a >= 0, b >= 0 ensures a * b >= 0 { assert(a * b >= 0) by (nonlinear_arith) requires a >= 0, b >= 0; }
 pub proof fn lemma_mul_pos(a: int, b: int) requires a > 0, b > 0 ensures a * b > 0 { assert(a * b > 0) by (nonlinear_arith) requires a > 0, b > 0; }
 
